@@ -168,6 +168,8 @@ def client_check(work, tier, seed, replay, propid):
         plan = [("MC_ClientSafety" + ("" if not quick else "_quick"), 1500)]
     else:
         plan = [("MC_ClientTimed" + ("" if not quick else "_quick"), 2400)]
+        if propid == "C11":
+            plan.append(("MC_ClientLive", 900))     # liveness under weak fairness: every call returns, Close returns
     for cfgname, to in plan:
         mcs.append(common.require_mc(common.tlc(work, "MC_Client", cfg=cfgname, workers=common.NCPU, timeout=to, heap="12g"), cfgname))
     # 2. the wrong designs violate them (non-vacuity) and give lead schedules
